@@ -19,7 +19,7 @@ def TD_POST(t, r):
     return isinstance(r["kind"], str) and r["kind"] in KINDS
 
 
-@opaque(ann="rec", post="TD_POST")
+@opaque(ann="TypeDict", post="TD_POST")
 def TD(t):
     if isinstance(t, UnknownType):
         return {"kind": "UnknownType"}
